@@ -34,6 +34,40 @@ Theorem C19_rules_three_valued : forall txs amount bn ds de,
 Proof. exact bidder_bid_verdict_ok. Qed.
 Print Assumptions C19_rules_three_valued.
 
+(* The numeric fields are int64 in the messages (the rule functions take any integer): for
+   values in the int64 range -- which is where every value decoded from the wire lies,
+   C19_wire_values_in_range -- "positive" reads 0 < v <= 2^63 - 1. *)
+Theorem C19_rules_int64 : forall txs amount bn ds de,
+  (-9223372036854775808 <= bn <= 9223372036854775807)%Z ->
+  (-9223372036854775808 <= ds <= 9223372036854775807)%Z ->
+  (-9223372036854775808 <= de <= 9223372036854775807)%Z ->
+  (bidder_bid_ok txs amount bn ds de = true <->
+   hashes_spec txs /\ amount_spec amount /\
+   (0 < bn <= 9223372036854775807)%Z /\ (0 < ds <= 9223372036854775807)%Z /\
+   (0 < de <= 9223372036854775807)%Z).
+Proof. exact bidder_bid_ok_int64. Qed.
+Print Assumptions C19_rules_int64.
+
+Theorem C19_wire_values_in_range : forall u,
+  (-9223372036854775808 <= int64_of_wire (u mod 18446744073709551616) <= 9223372036854775807)%Z.
+Proof. exact int64_of_wire_truncated. Qed.
+Print Assumptions C19_wire_values_in_range.
+
+(* The published regular expressions run on runes, C19_rules speaks of bytes.  For every
+   decoding of the byte string into runes of the UTF-8 shape (ASCII byte = one equal rune; a
+   byte >= 0x80 starts one or more bytes giving one rune >= 0x80, be it a multi-byte
+   character or U+FFFD for an invalid byte), '^[a-fA-F0-9]{64}$' and '^[0-9]+$' on the runes
+   say exactly what the byte-level specification says: multi-byte digits, fullwidth forms
+   and invalid UTF-8 are refused at every position. (The driver exercises this with invalid
+   and multi-byte sequences at the first and last positions, classes utf8-boundary and
+   hash-char-exhaustive.) *)
+Theorem C19_rules_rune_level : forall s runes,
+  utf8_decodes s runes ->
+  ((length runes = 64%nat /\ Forall hex_char runes) <-> (length s = 64%nat /\ Forall hex_char s)) /\
+  ((runes <> [] /\ Forall digit_char runes) <-> (s <> [] /\ Forall digit_char s)).
+Proof. exact rules_rune_level. Qed.
+Print Assumptions C19_rules_rune_level.
+
 (* A nil request, or one that breaks any of the rules, ends with InvalidArgument; the sender
    is never called (nothing is signed or sent) and nothing is streamed -- whatever the sender
    and the stream would have done. *)
@@ -72,9 +106,11 @@ Print Assumptions C19_verbatim.
 (* The messages streamed back are, in order, the images of a prefix of the commitments
    received from the sender: transaction list = comma-split of the received string, the same
    amount, block number and timestamps, lowercase hex of both digests, both signatures and
-   the provider address.  If SendBid returns nil the prefix is the whole list; if the stream
-   never fails and every received element carries its bid, SendBid returns nil; and it never
-   panics on such elements. *)
+   the provider address.  If SendBid returns nil the prefix is the whole list; if no Send
+   fails (the stream never fails, or its failing index lies beyond the list) and every
+   received element carries its bid, SendBid returns nil; it never panics on such elements;
+   and the stream's own error is returned only for the Send that failed, which is then the
+   last message. *)
 Theorem C19_commitment : forall r cs fail_at,
   bidder_bid_spec (r_txs r) (r_amount r) (r_bn r) (r_ds r) (r_de r) ->
   let m := send_bid (Some r) (SenderReturns cs) fail_at in
@@ -86,8 +122,10 @@ Theorem C19_commitment : forall r cs fail_at,
                 cm_ds := pb_ds b; cm_de := pb_de b |})
     (firstn (length (streamed m)) cs) (streamed m) /\
   (res m = RNil -> length (streamed m) = length cs) /\
-  (fail_at = None -> Forall (fun c => exists p b, c = Some p /\ pc_bid p = Some b) cs -> res m = RNil) /\
-  (Forall (fun c => exists p b, c = Some p /\ pc_bid p = Some b) cs -> res m <> RPanic).
+  ((fail_at = None \/ exists k, fail_at = Some k /\ (length cs <= k)%nat) ->
+   Forall (fun c => exists p b, c = Some p /\ pc_bid p = Some b) cs -> res m = RNil) /\
+  (Forall (fun c => exists p b, c = Some p /\ pc_bid p = Some b) cs -> res m <> RPanic) /\
+  (res m = RStreamErr -> exists k, fail_at = Some k /\ length (streamed m) = S k).
 Proof. exact commitment_stream. Qed.
 Print Assumptions C19_commitment.
 
